@@ -564,7 +564,7 @@ def run(tier, seed):
             break
         mism += len(f)
         for j in f[:2]:
-            rep.violation("groupby:model-mismatch", {"broken": "correspondence impl<->Model/GroupBy.v (or itertools<->spec)", "case": sh[j]}, no_input=not fails)
+            rep.violation("groupby:model-mismatch", {"broken": "correspondence impl<->Model/GroupBy.v (or itertools<->spec)", "case": sh[j]}, no_input=not rep.has_failing_input())
     rep.cov["traces_validated_against_impl"] = len(texts)
     rep.notes["model_mismatches"] = mism
     if not proofs_ok:
